@@ -198,12 +198,28 @@ func Association[K comparable, V any](arguments ...any) col.AssociationLike[K, V
 	var value V
 
 	// Process the actual arguments.
+	var hasKey, hasValue bool
 	for _, argument := range arguments {
 		switch actual := argument.(type) {
+		case col.NotationLike:
+			notation = actual
 		case K:
+			// NOTE: The key and value types may be the same, or the value type
+			// may be an interface that the key type implements.  In that case
+			// the position decides: the key comes first, the value second.
+			if hasKey && !hasValue {
+				var candidate, isValue = argument.(V)
+				if isValue {
+					value = candidate
+					hasValue = true
+					break
+				}
+			}
 			key = actual
+			hasKey = true
 		case V:
 			value = actual
+			hasValue = true
 		default:
 			var notationType = ref.TypeOf((*col.NotationLike)(nil)).Elem()
 			var reflectedType = ref.TypeOf(argument)
